@@ -17,7 +17,9 @@ MARK = re.compile(r'\b([mtq])(\d+)\b')
 
 
 class Ctx:
-    def __init__(self, mask, n1, n2):
+    def __init__(self, mask, n1, n2, dup=False):
+        self.dup = dup
+        self.objs = {}       # id(marker object) -> unique marker name
         self.mask, self.ns, self.k, self.bit, self.ni = mask, (n1, n2), 0, 0, 0
         self.flags = {}      # marker name -> 'table' | 'target' | None
         self.queries = []    # nested Select objects in creation order
@@ -43,13 +45,23 @@ class Ctx:
         return name
 
     def e(self, flag=None):
-        return A.Identifier(parts=[self._new('m', flag)])
+        name = self._new('m', flag)
+        # dup mode: every expression marker prints the same text (structurally equal siblings); identity tells them apart
+        node = A.Identifier(parts=['dd' if self.dup else name])
+        self.objs[id(node)] = name
+        return node
 
     def t(self):
-        return A.Identifier(parts=[self._new('t', 'table')])
+        name = self._new('t', 'table')
+        node = A.Identifier(parts=[name])
+        self.objs[id(node)] = name
+        return node
 
     def q(self):
-        s = A.Select(targets=[A.Identifier(parts=[self._new('q', 'target')])])
+        name = self._new('q', 'target')
+        inner = A.Identifier(parts=[name])
+        self.objs[id(inner)] = name
+        s = A.Select(targets=[inner])
         self.queries.append(s)
         return s
 
@@ -270,3 +282,88 @@ def inventory_gaps():
                 if isinstance(x, ASTNode) and not MARK.search(x.to_string()):
                     gaps.append('%s.%s holds a node without marker' % (cls_name, attr))
     return gaps
+
+
+# ---- identity-based step with structurally EQUAL sibling markers ------------------------------------------------
+
+def _paths(root, objs):
+    """{marker name: path} where path is a tuple of attribute names / indexes / dict keys leading from root to the marker"""
+    out = {}
+
+    def walk(o, path, depth):
+        if depth > 8:
+            return
+        if isinstance(o, ASTNode):
+            if id(o) in objs and path:
+                out[objs[id(o)]] = path
+                return
+            for k, v in vars(o).items():
+                if k in ('alias',):
+                    continue
+                walk(v, path + (('attr', k),), depth + 1)
+        elif isinstance(o, (list, tuple)):
+            for i, x in enumerate(o):
+                walk(x, path + (('idx', i),), depth + 1)
+        elif isinstance(o, dict):
+            for k, x in o.items():
+                walk(x, path + (('key', k),), depth + 1)
+    walk(root, (), 0)
+    return out
+
+
+def _resolve(root, path):
+    o = root
+    for kind, k in path:
+        if kind == 'attr':
+            o = getattr(o, k)
+        else:
+            o = o[k]
+    return o
+
+
+def step_dup(cls_name, mask, n1, n2, rep):
+    """like step(), but all expression markers print the same text, so siblings are structurally equal; visits and the
+    effect of a replacement are judged by object identity and by slot paths"""
+    c0 = Ctx(mask, n1, n2)
+    ref = BUILDERS[cls_name](c0)
+    order0 = [m.group(0) for m in MARK.finditer(ref.to_string())]
+    c = Ctx(mask, n1, n2, dup=True)
+    node = BUILDERS[cls_name](c)
+    paths = _paths(node, c.objs)
+    originals = {name: _resolve(node, p) for name, p in paths.items()}
+    problems = []
+    if sorted(paths) != sorted(c.flags):
+        return ['spec: slot paths do not cover every marker: %s vs %s' % (sorted(paths), sorted(c.flags))]
+    visited = []
+    state = {'seen': 0, 'replaced': None}
+    repl = A.Identifier(parts=['R'])
+
+    def cb(n, is_table=False, is_target=False, **kw):
+        if id(n) in c.objs:
+            name = c.objs[id(n)]
+            visited.append(name)
+            idx = state['seen']
+            state['seen'] += 1
+            if idx == rep:
+                state['replaced'] = name
+                return repl
+        return None
+    query_traversal(node, cb)
+    for name in c.flags:
+        k = visited.count(name)
+        if k != 1:
+            problems.append('marker %s visited %d times (equal siblings)' % (name, k))
+    if not problems and visited != order0:
+        problems.append('visit order %s differs from textual order %s (equal siblings)' % (visited, order0))
+    for name, p in paths.items():
+        try:
+            now = _resolve(node, p)
+        except Exception as e:  # noqa
+            problems.append('slot of %s disappeared: %r' % (name, e))
+            continue
+        if name == state['replaced']:
+            if now is not repl:
+                problems.append('replacement returned for %s is not in its slot (slot holds %s) (equal siblings)' % (name, c.objs.get(id(now), type(now).__name__)))
+        elif now is not originals[name]:
+            problems.append('slot of %s was changed although another node was replaced (equal siblings)' % name)
+    return problems
